@@ -2,11 +2,14 @@
    Only statements; the model is Cache/CachePolicy.v, the proofs live in Cache/CachePolicyProofs.v.
 
    Reading guide.  Times and durations are ns (Z); [mx] is cacheCtl.maximumTtl (= init_max_ttl of the configured
-   seconds); a history is any list of Tick / Store / Get / Collect / Evict events cp_run from the empty backend; the "fetch
-   instant" of the property is the cp_entry's storedTime (time.Now() inside cacheCtl.Store, as the property's anchor
-   says).  [EvStore s eps k (Some m) true] is a Store call at wall time s of the upstream response m under key k whose
-   value packed successfully. *)
-From Mos Require Import Base.Prelude Codec.Msg Cache.CachePolicy Cache.CachePolicyProofs.
+   seconds); a history is any list of Tick / Store / StoreAt / Get / Collect / Evict events cp_run from the empty backend;
+   the "fetch instant" of the property is the cp_entry's storedTime (time.Now() inside cacheCtl.Store, as the property's
+   anchor says).  [EvStore s eps k (Some m) true] is a Store call at wall time s of the upstream response m under key k
+   whose value packed successfully.  [EvStoreAt now s x k m nx] is MemoryCache.Store(k, storedTime = s, expireTime = x, m,
+   nx) called at wall time now - what cacheCtl.Get does when it promotes a redis hit into the memory cache with the
+   ORIGINAL storedTime / expireTime (s far in the past).  [hit_src mx evs k m s x]: m was supplied for k by a Store
+   event at s (then x = s + lifetime of m) or by a StoreAt event with exactly these s and x. *)
+From Mos Require Import Base.Prelude Codec.Msg Cache.CachePolicy Cache.CachePolicyProofs Cache.CacheTier Cache.CacheTierProofs.
 Local Open Scope Z_scope.
 
 (* ------------------------------------------------------------------ TTL ageing *)
@@ -23,14 +26,16 @@ Theorem C08_subtract_ttl : forall (delta : N) (m : msg),
 Proof. exact subtract_ttl_spec. Qed.
 Print Assumptions C08_subtract_ttl.
 
-(* In EVERY history, a cache hit at time t returns the response m that some Store event of that history supplied for
-   that key at time s (never a truncated one), aged by delta = uint32(whole seconds of t - s): every non-OPT record has
-   ttl' = max 1 (ttl - delta) — hence <= max 1 (upstream ttl - whole seconds elapsed) —, OPT records and everything
-   else are untouched; and delta is exactly floor((t - s) / 1 s) while 0 <= t - s < 2^32 s. *)
+(* In EVERY history, a cache hit at time t returns the response m that some Store / StoreAt event of that history
+   supplied for that key with storedTime s (never a truncated one through cacheCtl.Store), aged by delta = uint32(whole
+   seconds of t - s): every non-OPT record has ttl' = max 1 (ttl - delta) - hence <= max 1 (upstream ttl - whole seconds
+   elapsed since the ORIGINAL fetch, also for a promoted entry) -, OPT records and everything else are untouched; and
+   delta is exactly floor((t - s) / 1 s) while 0 <= t - s < 2^32 s. *)
 Theorem C08_ttl_bound : forall mx clk0 evs t k st' m' s x,
   cachectl_get (fst (cp_run mx (init_state clk0) evs)) t k = (st', OHit m' s x) ->
-  exists eps m, In (EvStore s eps k (Some m) true) evs /\ h_tc (m_hdr m) = false /\
-    x = s + msg_lifetime mx m /\
+  exists m,
+    ((exists eps, In (EvStore s eps k (Some m) true) evs /\ h_tc (m_hdr m) = false /\ x = s + msg_lifetime mx m) \/
+     (exists now nx, In (EvStoreAt now s x k m nx) evs)) /\
     m' = subtract_ttl (elapsed_secs t s) m /\
     Forall2 (fun r r' => if cp_is_opt r then r' = r
                          else r' = set_ttl r (N.max 1 (r_ttl r - elapsed_secs t s))) (rrs m) (rrs m') /\
@@ -127,13 +132,16 @@ Theorem C08_expiry : forall lag mx clk0 evs t k st' m' s x,
   lag <= 2 * SECOND -> SECOND <= mx ->
   hist_ok lag mx (init_state clk0) (evs ++ [EvGet t k]) ->
   cachectl_get (fst (cp_run mx (init_state clk0) evs)) t k = (st', OHit m' s x) ->
-  exists eps m, In (EvStore s eps k (Some m) true) evs /\ x = s + msg_lifetime mx m /\
-                t < s + msg_lifetime mx m + 2 * SECOND.
+  t < x + 2 * SECOND /\
+  exists m, (exists eps, In (EvStore s eps k (Some m) true) evs /\ h_tc (m_hdr m) = false /\
+                         x = s + msg_lifetime mx m /\ t < s + msg_lifetime mx m + 2 * SECOND) \/
+            (exists now nx, In (EvStoreAt now s x k m nx) evs).
 Proof.
   intros lag mx clk0 evs t k st' m' s x Hlag Hmx Hok H.
-  destruct (hit_before_expiry lag mx clk0 evs t k st' m' s x Hmx Hok H) as (Ht & eps & m & Hin & Hx).
-  exists eps, m. split; [exact Hin|]. split; [exact Hx|]. rewrite <- Hx.
-  apply Z.lt_le_trans with (x + lag); [exact Ht|]. apply Zplus_le_compat_l. exact Hlag.
+  destruct (hit_before_expiry lag mx clk0 evs t k st' m' s x Hmx Hok H) as (Ht & m & Hs).
+  assert (Ht2 : t < x + 2 * SECOND) by (apply Z.lt_le_trans with (x + lag); [exact Ht|apply Zplus_le_compat_l; exact Hlag]).
+  split; [exact Ht2|]. exists m. destruct Hs as [(eps & Hin & Htc & Hx)|Hat]; [left|right; exact Hat].
+  exists eps. rewrite <- Hx. auto.
 Qed.
 Print Assumptions C08_expiry.
 
@@ -142,9 +150,86 @@ Theorem C08_expiry_lag : forall lag mx clk0 evs t k st' m' s x,
   SECOND <= mx ->
   hist_ok lag mx (init_state clk0) (evs ++ [EvGet t k]) ->
   cachectl_get (fst (cp_run mx (init_state clk0) evs)) t k = (st', OHit m' s x) ->
-  t < x + lag /\ exists eps m, In (EvStore s eps k (Some m) true) evs /\ x = s + msg_lifetime mx m.
+  t < x + lag /\ exists m, hit_src mx evs k m s x.
 Proof. exact hit_before_expiry. Qed.
 Print Assumptions C08_expiry_lag.
+
+(* The promotion clause (round 2).  MemoryCache.Store takes storedTime and expireTime as separate inputs; the lifetime
+   it hands to the backend is time.Until(expireTime).  So an entry stored with ANY storedTime - in particular the
+   original fetch instant of an answer promoted from redis long after it was fetched - is never served at or after
+   expireTime + 2 s.  hist_ok asks of a StoreAt only that the call is not made 1 s or more after expireTime and that the
+   backend clock is not ahead of the wall clock; it says nothing about storedTime. *)
+Theorem C08_expiry_any_stored : forall lag mx clk0 evs t k st' m' s x,
+  lag <= 2 * SECOND -> SECOND <= mx ->
+  hist_ok lag mx (init_state clk0) (evs ++ [EvGet t k]) ->
+  cachectl_get (fst (cp_run mx (init_state clk0) evs)) t k = (st', OHit m' s x) ->
+  forall now m nx, In (EvStoreAt now s x k m nx) evs -> t < x + 2 * SECOND.
+Proof.
+  intros lag mx clk0 evs t k st' m' s x Hlag Hmx Hok H now m nx Hin.
+  apply Z.lt_le_trans with (x + lag); [exact (store_at_expiry lag mx clk0 evs t k st' m' s x Hmx Hok H now m nx Hin)|].
+  apply Zplus_le_compat_l. exact Hlag.
+Qed.
+Print Assumptions C08_expiry_any_stored.
+
+(* ... and the variant that restarts the lifetime at promotion (ttl := expireTime - storedTime, equal to
+   time.Until(expireTime) only when storedTime = now) is REFUTED: with storedTime 10 s in the past the entry it
+   creates is still live under an ideal clock (lag < 1 s) 9.5 s after expireTime, and it violates the invariant
+   (entry_clk) on which C08_expiry rests. *)
+Theorem C08_restarted_lifetime_refuted :
+  exists clk now stored expire clk' t v,
+    Z.of_N clk * SECOND <= now /\ - SECOND < expire - now /\ stored <= now /\
+    t - SECOND < Z.of_N clk' * SECOND /\
+    has_expired clk' (mkEntry stored expire v true (otter_expiration clk (expire - stored))) = false /\
+    expire + 2 * SECOND <= t /\
+    ~ entry_clk (mkEntry stored expire v true (otter_expiration clk (expire - stored))).
+Proof. exact restarted_lifetime_serves_stale. Qed.
+Print Assumptions C08_restarted_lifetime_refuted.
+
+(* a promotion is set-if-absent: it never displaces what the memory cache already holds for the key (C08_negative_nx
+   below covers it: neg_keeps has a StoreAt clause) *)
+
+(* ------------------------------------------------------------------ the two-tier cache: memory + shared redis (round 2) *)
+
+(* Model Cache/CacheTier.v: cacheCtl with both backends.  Store writes the memory cache and (asynchronously, SET [NX] PX)
+   redis; Get asks the memory cache, then redis, and PROMOTES a redis hit into the memory cache with the instants read
+   from redis (the original ones, cut to whole Unix seconds); the memory cache and redis may lose any key at any time
+   (CtDrop: eviction / restart; CtRedisDrop), other proxy instances write the same redis (CtForeign).
+   In EVERY such history (clock assumptions as before, ct_hist_ok; nothing assumed about foreign stores or drops), a hit
+   at wall time t - from either tier, however late in its life the answer was copied into the memory cache - reports
+   an expireTime x with t < x + 2 s. *)
+Theorem C08_tier_expiry : forall lag mx clk0 evs t k st' m' s x,
+  SECOND <= lag <= 2 * SECOND -> SECOND <= mx ->
+  ct_hist_ok lag mx (ct_init clk0) (evs ++ [CtGet t k]) ->
+  ct_get (fst (ct_run mx (ct_init clk0) evs)) t k = (st', OHit m' s x) ->
+  t < x + 2 * SECOND.
+Proof.
+  intros lag mx clk0 evs t k st' m' s x [Hl1 Hl2] Hmx Hok H.
+  apply Z.lt_le_trans with (x + lag); [exact (ct_hit_before_expiry lag mx clk0 evs t k st' m' s x Hmx Hl1 Hok H)|].
+  apply Zplus_le_compat_l. exact Hl2.
+Qed.
+Print Assumptions C08_tier_expiry.
+
+(* ... and (s, x) are the instants of an answer m that this proxy stored for this key at s0 (then s = s0, x = s0 + lifetime,
+   or both cut to the whole second when the answer came back through redis) or that another instance stored; the served
+   message is m aged by the whole seconds since s.  So x <= s0 + lifetime and s <= s0: with C08_tier_expiry nothing is
+   served at s0 + lifetime + 2 s or later, and every served TTL is <= max 1 (ttl - whole seconds since the fetch). *)
+Theorem C08_tier_ttl_bound : forall mx clk0 evs t k st' m' s x,
+  ct_get (fst (ct_run mx (ct_init clk0) evs)) t k = (st', OHit m' s x) ->
+  exists m,
+    ((exists s0 eps, In (CtStore s0 eps k (Some m) true) evs /\ h_tc (m_hdr m) = false /\
+        ((s = s0 /\ x = s0 + msg_lifetime mx m) \/ (s = unix_floor s0 /\ x = unix_floor (s0 + msg_lifetime mx m)))) \/
+     (exists now s0 x0 nx, In (CtForeign now s0 x0 k m nx) evs /\ s = unix_floor s0 /\ x = unix_floor x0)) /\
+    m' = subtract_ttl (elapsed_secs t s) m /\
+    Forall2 (fun r r' => if cp_is_opt r then r' = r
+                         else r' = set_ttl r (N.max 1 (r_ttl r - elapsed_secs t s))) (rrs m) (rrs m') /\
+    m_hdr m' = m_hdr m /\ m_qs m' = m_qs m /\
+    (0 <= t - s < two32 * SECOND -> Z.of_N (elapsed_secs t s) = (t - s) / SECOND).
+Proof. exact ct_hit_ttl_bound. Qed.
+Print Assumptions C08_tier_ttl_bound.
+
+Theorem C08_unix_floor : forall t, unix_floor t <= t < unix_floor t + SECOND.
+Proof. intros t. split; [apply unix_floor_le|apply unix_floor_gt]. Qed.
+Print Assumptions C08_unix_floor.
 
 (* ------------------------------------------------------------------ never cached *)
 
@@ -245,6 +330,37 @@ Example C08_example_history :
     [6; 8400; 11400; 3; 10; 4294967295; 32768] ] /\
   hist_ok SECOND H6 (init_state 0) ex_hist.
 Proof. split; [vm_compute; reflexivity|]. apply hist_okb_sound. vm_compute. reflexivity. Qed.
+
+(* promotion: at wall time 100.3 s (clock 100) an answer fetched at 40 s with lifetime 62 s (expire = 102 s) is put into
+   the memory cache with its ORIGINAL instants; served at 101.4 s aged by 61 whole seconds (TTLs 300 -> 239, 70 -> 9);
+   gone at 102.6 s (clock 102) although only 2.3 s have passed since it entered the memory cache; hist_ok holds *)
+Definition ex_promo_hist : list event :=
+  [ EvTick 100; EvStoreAt (ms 100300) (ms 40000) (ms 102000) 1 (ex_msg 0 false [300; 70]%N) true;
+    EvTick 101; EvGet (ms 101400) 1;
+    EvStoreAt (ms 101500) (ms 101500) (ms 901500) 1 ex_nx true;     (* set-if-absent onto a present key: kept *)
+    EvTick 102; EvGet (ms 102600) 1 ].
+
+Example C08_example_promotion :
+  map show (snd (cp_run H6 (init_state 0) ex_promo_hist)) =
+  [ [0]; [3; 1]; [0]; [6; 40000; 102000; 239; 9; 32768]; [4; 800]; [0]; [5] ] /\
+  hist_ok SECOND H6 (init_state 0) ex_promo_hist.
+Proof. split; [vm_compute; reflexivity|]. apply hist_okb_sound. vm_compute. reflexivity. Qed.
+
+(* two-tier history (Unix phase 0.25 s): a TTL-6 answer stored at 1000.25 s (memory + redis); the memory cache loses it at
+   1004.6 s; the Get at 1004.9 s is a redis hit and is promoted with stored = 1000 s, expire = 1006 s (aged by 4 s:
+   TTLs 6 -> 2, 300 -> 296); at 1005.6 s the promoted entry is served from memory; at 1008.75 s (clock 1008) nothing is
+   served although the entry entered the memory cache only 3.85 s earlier; ct_hist_ok holds *)
+Definition ex_tier_hist : list ct_event :=
+  [ CtTick 1000; CtStore (ms 1000250) 1000 1 (Some (ex_msg 0 false [6; 300]%N)) true;
+    CtTick 1004; CtDrop 1; CtGet (ms 1004900) 1;
+    CtTick 1005; CtGet (ms 1005600) 1;
+    CtTick 1008; CtGet (ms 1008750) 1 ].
+
+Example C08_example_tier :
+  map show (snd (ct_run H6 (ct_init 0) ex_tier_hist)) =
+  [ [0]; [3; 6]; [0]; [1]; [6; 1000000; 1006000; 2; 296; 32768]; [0]; [6; 1000000; 1006000; 1; 295; 32768]; [0]; [5] ] /\
+  ct_hist_ok SECOND H6 (ct_init 0) ex_tier_hist.
+Proof. split; [vm_compute; reflexivity|]. apply ct_hist_okb_sound. vm_compute. reflexivity. Qed.
 
 (* the clock assumption is what bounds the serving time: with a stuck clock (no Tick) the same cp_entry is served forever *)
 Example C08_example_stuck_clock :
